@@ -79,14 +79,29 @@ class Query:
 
 
 def sh(cmd, timeout=None, cwd=None, env=None, stdout=subprocess.PIPE, stderr=subprocess.STDOUT):
+    """Run a command in its own process group; on timeout the whole group is killed (no orphaned solvers)."""
+    import signal
     t0 = time.time()
+    p = subprocess.Popen(cmd, stdout=stdout, stderr=stderr, cwd=cwd, env=env, start_new_session=True)
     try:
-        p = subprocess.run(cmd, stdout=stdout, stderr=stderr, timeout=timeout, cwd=cwd, env=env)
-        out = p.stdout.decode('utf-8', 'replace') if p.stdout is not None else ''
-        return p.returncode, out, time.time() - t0
-    except subprocess.TimeoutExpired as e:
-        out = e.stdout.decode('utf-8', 'replace') if e.stdout else ''
-        return -9, out, time.time() - t0
+        out, _ = p.communicate(timeout=timeout)
+        return p.returncode, (out.decode('utf-8', 'replace') if out is not None else ''), time.time() - t0
+    except subprocess.TimeoutExpired:
+        try:
+            os.killpg(p.pid, signal.SIGKILL)
+        except ProcessLookupError:
+            pass
+        try:
+            out, _ = p.communicate(timeout=10)
+        except Exception:
+            out = b''
+        return -9, (out.decode('utf-8', 'replace') if out else ''), time.time() - t0
+    except BaseException:
+        try:
+            os.killpg(p.pid, signal.SIGKILL)
+        except ProcessLookupError:
+            pass
+        raise
 
 
 class Inconclusive(Exception):
